@@ -6,7 +6,7 @@ set -u
 ID=$1; X=$2; DEMO=$3; DEST=$4; RUN=$5; NOFULL=${6:-}
 export GOFLAGS=-mod=mod GOPROXY=off GOSUMDB=off GOTOOLCHAIN=local
 unset GOWORK
-SRC=/tmp/seed/$ID.out/$X
+SRC=${SEEDROOT:-/tmp/seed}/$ID.out/$X
 WT=/tmp/seedverify/$ID-$X
 LOG=/tmp/seedverify/$ID-$X.log
 mkdir -p /tmp/seedverify; rm -rf $WT; : > $LOG
